@@ -582,10 +582,32 @@ pub fn main(args: &Args) -> ! {
                         }
                     }
                 }
+                // a tracker that stops answering altogether is reported at once (not after thousands of 5 s timeouts)
+                let unanswered = AtomicU64::new(0);
+                let stopped = AtomicU64::new(0);
                 let res = par_map(&work, 4, |(path, pl)| {
+                    if stopped.load(Ordering::Relaxed) != 0 {
+                        return (ReplayOut { requests: 0, violation: None }, (*path).clone(), pl.clone());
+                    }
                     let ns = NS.fetch_add(1, Ordering::Relaxed);
-                    (replay(&trk, &params, path, ns, pl), (*path).clone(), pl.clone())
+                    let o = replay(&trk, &params, path, ns, pl);
+                    match &o.violation {
+                        Some((sig, _)) if sig.starts_with("http/no-reply") => {
+                            if unanswered.fetch_add(1, Ordering::Relaxed) >= 8 && stopped.load(Ordering::Relaxed) == 0 {
+                                let addr = SocketAddr::new(IpAddr::V4(Ipv4Addr::LOCALHOST), trk.child.port);
+                                if !http_alive(addr, ns) && !http_alive(addr, ns + 1) && stopped.swap(1, Ordering::Relaxed) == 0 {
+                                    let threads = proc_thread_states(trk.child.child.id());
+                                    viols.lock().unwrap().push(("http/tracker-stopped-answering".to_string(), format!("{}: after {} consecutive unanswered requests the tracker does not answer a plain announce on a fresh connection either (twice, 5 s each); process alive, threads: {:?}", trk.label, unanswered.load(Ordering::Relaxed), threads), json!({"path": path, "socket_workers": sw, "swarm_workers": wm, "keep_alive": ka, "max_scrape": ms, "conn_worker": pl.conn_worker, "torrent_worker": pl.torrent_worker})));
+                                }
+                            }
+                        }
+                        _ => unanswered.store(0, Ordering::Relaxed),
+                    }
+                    (o, (*path).clone(), pl.clone())
                 });
+                if stopped.load(Ordering::Relaxed) != 0 {
+                    return;
+                }
                 for (o, path, pl) in res {
                     total_requests.fetch_add(o.requests, Ordering::Relaxed);
                     total_paths.fetch_add(1, Ordering::Relaxed);
